@@ -730,6 +730,39 @@ pub fn run(ctx: &mut Ctx, which: &str) {
             }
         }
     }
+    // declared sizes and alignments of types WITHOUT a body (`type X;`, the opaque form), fed to
+    // pyxis as text: what the registry holds must be what was declared (C02); a field after such
+    // a type sits where the declared size puts it (C01)
+    for (size, align) in [(0x20usize, 16usize), (8, 8), (24, 4), (3, 1), (0, 32), (64, 64)] {
+        for ptrw in [4usize, 8] {
+            ctx.eval();
+            let text = format!(
+                "#[size({size}), align({align})] pub type Opaque;\n#[align({a})] pub type Holder {{ pub head: Opaque, pub pair: [Opaque; 2], #[address({end})] pub tail: u32, _: unknown<{pad}>, }}\n",
+                a = align.max(4),
+                end = 3 * size,
+                pad = (align.max(4) - (3 * size + 4) % align.max(4)) % align.max(4)
+            );
+            let out = crate::drive::build_texts(&[("kq_opaque.pyxis".to_string(), text.clone())], ptrw, crate::drive::Opts::default());
+            ctx.nontrivial(crate::rng::fnv(format!("opaque{size}{align}{ptrw}").as_bytes()));
+            let case = json!({"ptrw": ptrw, "modules": {"kq_opaque": text}});
+            match out.result {
+                Err(e) if e.stage == Stage::Panic => ctx.violation(&format!("{which}/panic"), &e.msg, case),
+                Err(_) => ctx.count("opaque_type_cases_rejected", 1),
+                Ok(ok) => {
+                    ctx.count("opaque_type_cases_accepted", 1);
+                    let reg = ok.state.type_registry();
+                    let got = reg.get(&ItemPath::from("kq_opaque::Opaque")).map(|i| (i.size(), i.alignment()));
+                    let holder = reg.get(&ItemPath::from("kq_opaque::Holder")).and_then(|i| i.size());
+                    let want_holder = 3 * size + 4 + (align.max(4) - (3 * size + 4) % align.max(4)) % align.max(4);
+                    if which == "C02" && got != Some((Some(size), Some(align))) {
+                        ctx.violation("C02/declared-attributes-of-a-bodyless-type", &format!("`#[size({size}), align({align})] type Opaque;` resolved to {got:?}"), case);
+                    } else if which == "C01" && holder != Some(want_holder) {
+                        ctx.violation("C01/field-after-a-bodyless-type", &format!("Holder (three Opaque of {size} bytes, then `tail` at {:#x}) resolved to size {holder:?}, expected {want_holder}", 3 * size), case);
+                    }
+                }
+            }
+        }
+    }
     let built: Vec<(usize, BuildOutcome)> = inputs
         .par_iter()
         .enumerate()
